@@ -206,6 +206,21 @@ func genIdgen(g *Gen, w *bufio.Writer) {
 			rec(nil)
 		}
 	}
+	// long-lived allocators: thousands of allocate / free cycles on small ranges with a positive minimum while the three lowest
+	// identifiers stay allocated the whole time (housekeeping that only runs after many operations), then allocation until full
+	for i := 0; i < 3; i++ {
+		min := int64(3 + g.Intn(7))
+		size := int64(12 + g.Intn(30))
+		ops := []string{"a", "a", "a"}
+		for j := 0; j < 4200+g.Intn(300); j++ {
+			ops = append(ops, "a", fmt.Sprintf("f:%d", min+3+int64(g.Intn(int(size)-3))))
+		}
+		for j := 0; j < int(size)+2; j++ {
+			ops = append(ops, "a")
+		}
+		ops = append(ops, fmt.Sprintf("r:0:%d", 3+g.Intn(4)))
+		emit(min, min+size-1, ops)
+	}
 	// random longer histories on larger ranges
 	for i := 0; i < g.N; i++ {
 		min := int64(g.Intn(20)) - 5
